@@ -1,23 +1,27 @@
 #!/bin/bash
-# tools/regress_seeded.sh [id...] - applies every kept seeded change to /repo (which must be
-# clean), runs the checks recorded as catching it (quick tier), restores /repo, and reports.
+# tools/regress_seeded.sh [id...] - applies every kept seeded change to a repository (which
+# must be clean), runs the checks recorded as catching it (quick tier), restores it, and
+# reports. REGRESS_REPO (default /repo) names the repository: a scratch worktree of /repo lets
+# this run beside other work (the checks are pointed at it through VERIF_REPO).
 export GOFLAGS=-mod=mod GOPROXY=off GOSUMDB=off
+R=${REGRESS_REPO:-/repo}
+export VERIF_REPO=$R
 cd /verif
-[ -z "$(git -C /repo status --porcelain)" ] || { echo "/repo is dirty"; exit 2; }
+[ -z "$(git -C $R status --porcelain)" ] || { echo "$R is dirty"; exit 2; }
 IDS="$@"; [ -n "$IDS" ] || IDS=$(ls seeded)
 for id in $IDS; do
   d=seeded/$id
   patch=$d/patch.diff; [ -f $d/patch-current-tree.diff ] && patch=$d/patch-current-tree.diff
   props=$(python3 -c "import json;print(' '.join(json.load(open('$d/meta.json')).get('caught_by',[])))")
   if [ -z "$props" ]; then echo "$id: recorded as not caught"; continue; fi
-  if ! git -C /repo apply --3way $PWD/$patch >/dev/null 2>&1; then git -C /repo reset -q --hard HEAD; echo "$id: patch no longer applies (repo changed underneath it)"; continue; fi
-  git -C /repo reset -q
-  if ! (cd /repo && go build ./... >/dev/null 2>&1); then git -C /repo reset -q --hard HEAD; echo "$id: does not build on the current tree"; continue; fi
+  if ! git -C $R apply --3way $PWD/$patch >/dev/null 2>&1; then git -C $R reset -q --hard HEAD; echo "$id: patch no longer applies (repo changed underneath it)"; continue; fi
+  git -C $R reset -q
+  if ! (cd $R && go build ./... >/dev/null 2>&1); then git -C $R reset -q --hard HEAD; echo "$id: does not build on the current tree"; continue; fi
   res=""
   for p in $props; do
-    ./check $p quick >/tmp/regress_$id_$p.log 2>&1; rc=$?
+    ./check $p quick >/var/tmp/regress_${id}_$p.log 2>&1; rc=$?
     case $rc in 1) res="$res $p:CAUGHT";; 0) res="$res $p:missed";; *) res="$res $p:trouble($rc)";; esac
   done
-  git -C /repo reset -q --hard HEAD
+  git -C $R reset -q --hard HEAD
   echo "$id:$res"
 done
